@@ -157,7 +157,9 @@ def main(argv):
     rdir = os.path.join(HERE, 'evidence', 'replays')
     seen = set()
     for i, v in enumerate(new_v):
-        key = (v['label'], v['harness'])
+        key = (v['label'], v['harness'],
+               (v.get('detail') or '').rsplit('window=', 1)[-1]
+               if 'window=' in (v.get('detail') or '') else '')
         if key in seen:
             continue
         seen.add(key)
